@@ -275,6 +275,33 @@ pub fn run_encode(a: &Args, out: &mut Out) {
             if found >= 3 { break; }
         }
     }
+    // G1 points with x = q - i, and with a tiny or near-q Y coordinate (x = cbrt(y^2 - 5)): both signs of y through every format
+    let mut found = 0;
+    for i in 1u8..60 {
+        if found >= 4 { break; }
+        let mut sm = [0u8; 32];
+        sm[31] = i;
+        let si = Fq::from_slice(&sm).unwrap();
+        let mut v = vec![2u8 + (i & 1)];
+        v.extend_from_slice(&(-si).to_slice());
+        if let Some(p) = <G1 as Grp>::dec(&v, "cmp") {
+            encode_point::<G1>(&mut rng, out, p);
+            found += 1;
+        }
+    }
+    let mut found = 0;
+    for i in 1u8..60 {
+        if found >= 6 { break; }
+        let mut sm = [0u8; 32];
+        sm[31] = i;
+        let y = if i % 2 == 0 { Fq::from_slice(&sm).unwrap() } else { -Fq::from_slice(&sm).unwrap() };
+        if let Some(x) = fq_cbrt(y * y - G1::b()) {
+            if let Some(p) = <G1 as Grp>::affine_new(&x.to_slice(), &y.to_slice()) {
+                encode_point::<G1>(&mut rng, out, p);
+                found += 1;
+            }
+        }
+    }
     // ... and the first multiples of the generators having a coordinate limb whose top byte is zero
     let (mut n1, mut n2) = (0, 0);
     let (mut p1, mut p2) = (G1::one(), G2::one());
